@@ -5,6 +5,7 @@ import CgtModel.Lemmas.LegWindow
 import CgtModel.Lemmas.SpecEquiv
 import CgtModel.Lemmas.SpecTable
 import CgtModel.Lemmas.Sorted
+import CgtModel.Lemmas.RawShape
 import CgtModel.Props.C02
 /-! # C01 — Same Day, then 30-day (earliest first), then Section 104
 
@@ -329,5 +330,30 @@ theorem C01_ledger (l : List Tx) (hw : WellFormed l) (hd : Spec.DatesOk l) (rs :
   have := C01_matcher_is_statute r.ticker _ (daysOf_strict l r.ticker) (wellFormed_days l hw r.ticker).1 hne hone r.pool r.legs hrun
   rw [← table_eq_days r.ticker l hw hd] at this
   exact this
+
+/-- **C01 with every hypothesis on the input**: `C01_ledger` asks for the preprocessed day list to be
+    free of capital events and to carry at most one SELL per day; both follow from the raw lines
+    (`Lemmas/RawShape.lean`): a security with no CAPRETURN / ACCUMULATION line, whose SELL lines fall on
+    pairwise different days, in a validator-clean ledger with valid dates that the matcher accepts,
+    gets exactly `Spec.identify`'s legs and closing pool. -/
+theorem C01_ledger_raw (l : List Tx) (hw : WellFormed l) (hd : Spec.DatesOk l) (rs : List TickerResult)
+    (h : run bnbWindowDays l = .ok rs) :
+    ∀ r ∈ rs, noEventLines r.ticker l → oneSellPerDay r.ticker l →
+      let s := Spec.identify bnbWindowDays r.ticker l
+      s.poolQ = poolQ' r.pool ∧ s.poolC = poolC' r.pool ∧
+      r.legs.map legView = s.disposals.flatMap (fun dsp => dsp.legs.map slegView) := by
+  intro r hr hne hone
+  exact C01_ledger l hw hd rs h r hr (noEvents_of_raw r.ticker l hne) (oneSell_of_raw r.ticker l hone)
+
+-- non-vacuity: the D1 shape as raw lines (shuffled, the purchase recorded as two fills, a second
+-- security with a capital return alongside) meets every hypothesis for security "A" (the harness runs the
+-- same ledger through the real matcher and the model driver: corpus/C01/raw_shape.cgt)
+def exRaw : List Tx :=
+  [ ⟨⟨2024, 2, 10⟩, "A", .sell 50 4 0⟩, ⟨⟨2024, 2, 1⟩, "A", .sell 100 2 0⟩,
+    ⟨⟨2024, 1, 1⟩, "A", .buy 600 1 0⟩, ⟨⟨2024, 1, 1⟩, "B", .buy 10 1 0⟩, ⟨⟨2024, 1, 1⟩, "A", .buy 400 1 0⟩,
+    ⟨⟨2024, 2, 2⟩, "A", .sell 100 2 0⟩, ⟨⟨2024, 3, 1⟩, "B", .capreturn 10 3 0⟩, ⟨⟨2024, 2, 10⟩, "A", .buy 80 3 0⟩ ]
+
+example : WellFormed exRaw ∧ noEventLines "A" exRaw ∧ oneSellPerDay "A" exRaw ∧ ¬ noEventLines "B" exRaw := by
+  decide +kernel
 
 end Cgt.C01
